@@ -1907,6 +1907,7 @@ private:
 
     void unnormalize(basic_bigint& rem, int x, bool secondDone) const
     {
+        rem.reduce(); // drop leading zero words, the comparisons in divide() rely on it
         if (secondDone)
         {
             rem /= max_word;
